@@ -41,8 +41,10 @@ a caller can attribute a disagreement to its root cause:
 * ``upper_version_letter``: version letter ``[a-zA-Z]`` instead of ``[a-z]`` (``=c/p-1A``)
 * ``slot_leading_plus``:    slot names may start with ``+`` (``c/p:+x``)
 
-Public API: ``features_for``, ``parse`` (-> Fields dict or raises Reject), ``accepts``, ``why``,
-``render``, ``valid_*`` predicates for the individual name classes, ``EAPIS``.
+Public API: ``features_for``, ``parse`` (-> Fields dict or raises Reject), ``parse_any`` + ``gate``
+(the EAPI-independent parse and the per-EAPI feature gate ``parse`` is composed of; use them to
+judge one string under many EAPIs with a single parse), ``accepts``, ``why``, ``render``,
+``valid_*`` predicates for the individual name classes, ``version_tail``, ``EAPIS``, ``FEATURES``.
 """
 from __future__ import annotations
 
@@ -161,9 +163,7 @@ def _parse_use(body):
         x = item
         if not x:
             raise Reject("use-empty")
-        kind = "plain"
         if x[-1] in "?=":
-            kind = x[-1]
             x = x[:-1]
             if x.startswith("!"):
                 x = x[1:]
@@ -177,16 +177,37 @@ def _parse_use(body):
     return out
 
 
+_GATE_ORDER = ("slot_deps", "sub_slots", "use_deps", "use_defaults", "strong_blockers", "repo_ids")
+
+
+def gate(fields, eapi):
+    """None if every feature `fields` needs is legal under `eapi`, else the rule id 'gate:<feature>'"""
+    feats = features_for(eapi)
+    for feat in _GATE_ORDER:
+        if feat in fields["features"] and feat not in feats:
+            return "gate:" + feat
+    return None
+
+
 def parse(s, eapi, dialect=frozenset()):
     """Parse `s` under `eapi`; returns the Fields dict or raises Reject(rule).
 
     Fields: blocks, strong (bool); op ('' '<' '<=' '=' '=*' '~' '>=' '>'); category, package;
     version, revision (str or None; revision as written, digits only); slot, subslot,
     slot_op (None '=' '*'); repo; use (list of items as written, or None); features (set of
-    FEATURES the string needs)."""
+    FEATURES the string needs).  Equivalent to parse_any() followed by gate()."""
+    f = parse_any(s, dialect)
+    g = gate(f, eapi)
+    if g is not None:
+        raise Reject(g)
+    return f
+
+
+def parse_any(s, dialect=frozenset()):
+    """Parse `s` with every optional feature enabled (the EAPI-independent part of the grammar);
+    the returned Fields' `features` says which EAPIs accept it (see gate())."""
     if not isinstance(s, str):
         raise TypeError(s)
-    feats = features_for(eapi)
     dialect = frozenset(dialect)
     if not s:
         raise Reject("empty")
@@ -288,12 +309,7 @@ def parse(s, eapi, dialect=frozenset()):
         tail = ""
     if tail:
         raise Reject("trailing-garbage")
-    # ---- EAPI gates (checked last so that `features` is complete for valid-in-some-EAPI strings)
     f["features"] = frozenset(need)
-    order = ("slot_deps", "sub_slots", "use_deps", "use_defaults", "strong_blockers", "repo_ids")
-    for feat in order:
-        if feat in need and feat not in feats:
-            raise Reject("gate:" + feat)
     return f
 
 
